@@ -44,6 +44,8 @@ fn dispatch(cmd: &str, args: &[&str]) -> String {
         "serdede" => serde_rt::run_de(args),
         "fsthier" => fstraw::run_hier(args),
         "fstsig" => fstraw::run_sig(args),
+        "ghwhier" => fstraw::run_ghw_hier(args),
+        "ghwfile" => fstraw::run_ghw_file(args),
         "ghwslices" => slice::run_ghw(args),
         "ghwaliases" => slice::run_aliases(args),
         "canonfile" => slice::run_canonfile(args),
